@@ -1689,6 +1689,11 @@ int main(int argc, char** argv)
     // several operation sequences for the same queue configuration, explored one after the other
     std::string b = batch;
     size_t p = 0;
+    // wall-clock budget of the whole batch (a changed queue can make single configurations run into their deadline one
+    // after the other): what was not started is reported as a cap, never silently skipped
+    long const batch_budget = a.geti("--batch-budget", 0);
+    time_t const batch_start = time(nullptr);
+    unsigned long long not_started = 0;
     while (p < b.size())
     {
       size_t e = b.find(';', p);
@@ -1696,6 +1701,11 @@ int main(int argc, char** argv)
       std::string one = b.substr(p, e - p);
       p = e + 1;
       if (one.empty()) continue;
+      if (batch_budget > 0 && time(nullptr) - batch_start > batch_budget)
+      {
+        ++not_started;
+        continue;
+      }
       g_cfg.ops.clear();
       size_t q = 0;
       while (q < one.size())
@@ -1710,6 +1720,8 @@ int main(int argc, char** argv)
       wmm::g_pruned = 0;
       dispatch();
     }
+    if (not_started)
+      vf::J("cap").s("why", "batch budget of " + std::to_string(batch_budget) + " s used up: " + std::to_string(not_started) + " configurations of this batch not started").emit();
     vf::done();
 #ifdef VF_SYS
     fflush(stdout);
